@@ -331,6 +331,8 @@ class World:
     async def default_resolve(self, parent, args, ctx, info):
         """custom_default_resolver: same contract as the built-in default resolver."""
         self.calls.append(("default:%s.%s" % (info.parent_type.name, info.field_name), ident_of(parent), canon(args), id(ctx)))
+        if self.sched is not None:
+            await self.sched.gate("d:" + "/".join(map(str, info.path.as_list())))
         try:
             return getattr(parent, info.field_name)
         except AttributeError:
